@@ -375,6 +375,10 @@ func runC17(ctx *h.Ctx) int {
 			k.Violation("history-changes-output", "the output of an input compiled after a sibling input (same words, other font/switches/length) differs from its output in a fresh process", map[string]interface{}{"fresh": fresh.Out, "after_history": after.Out, "sibling": srcY})
 			return
 		}
+		if !after.OK() && after.Err != nil && !strings.Contains(fresh.Stderr, "PORYSCRIPT ERROR: "+after.Err.Error()) {
+			k.Violation("history-changes-error", fmt.Sprintf("rejected in both, with different errors: after a sibling input %q; fresh process: %s", after.Err.Error(), firstLineOf(fresh.Stderr)), nil)
+			return
+		}
 		k.Count("history_pairs_equal", 1)
 		k.Nontrivial("history", fx, len(after.Out)/64)
 	})
@@ -440,6 +444,10 @@ func runC17(ctx *h.Ctx) int {
 		}
 		if after.OK() && after.Out != fresh.Out {
 			k.Violation("failed-history-changes-output", "the output of a valid input compiled after failed compilations differs from its output in a fresh process", map[string]interface{}{"fresh": fresh.Out, "after": after.Out, "failed_before": bad})
+			return
+		}
+		if !after.OK() && after.Err != nil && !strings.Contains(fresh.Stderr, "PORYSCRIPT ERROR: "+after.Err.Error()) {
+			k.Violation("failed-history-changes-error", fmt.Sprintf("rejected in both, with different errors: after failed compilations %q; fresh process: %s", after.Err.Error(), firstLineOf(fresh.Stderr)), map[string]interface{}{"failed_before": bad})
 			return
 		}
 		k.Count("after_error_pairs_equal", 1)
